@@ -38,3 +38,26 @@ Theorem C15_foreign_instance_ignored : forall now c stag rtag body aux rnd,
   c' = c <| c_injections := [] |>.
 Proof. exact foreign_instance_ignored. Qed.
 Print Assumptions C15_foreign_instance_ignored.
+
+(* over histories (Proto/Tags.v): after any history of a new conversation its own instance tag is 0 (not drawn yet) or at
+   least 0x100 and the peer instance it is bound to is 0 (not bound) or at least 0x100; one call never changes a tag
+   that is set - in particular no message, whatever tags it claims, rebinds the conversation *)
+From OTR Require Import Proto.Lifecycle Proto.Tags.
+Theorem C15_tags_legal_after_every_history : forall who pol key h,
+  let c := end_of (conv_init who pol key) h in tag_ok (c_ourTag c) /\ tag_ok (c_theirTag c).
+Proof. exact tags_of_a_new_conversation. Qed.
+Print Assumptions C15_tags_legal_after_every_history.
+
+Theorem C15_tags_once_set_never_change : forall h c, tag_ok (c_ourTag c) -> tag_ok (c_theirTag c) ->
+  tag_ok (c_ourTag (end_of c h)) /\ tag_ok (c_theirTag (end_of c h)) /\
+  (c_ourTag c <> 0 -> c_ourTag (end_of c h) = c_ourTag c) /\ (c_theirTag c <> 0 -> c_theirTag (end_of c h) = c_theirTag c).
+Proof. exact history_tags. Qed.
+Print Assumptions C15_tags_once_set_never_change.
+
+(* a first message from instance 300 binds, a later one claiming instance 400 does not rebind, one claiming the
+   reserved tag 200 does not bind *)
+Example C15_binding_example :
+  let m tag := CReceive (WEnc 3 tag 0 (EAke (BCommit 7 8 8))) 0 [] in
+  let c1 := fst (step 0 (conv_init 1 6 1) (m 300)) in
+  c_theirTag c1 = 300 /\ c_theirTag (fst (step 0 c1 (m 400))) = 300 /\ c_theirTag (fst (step 0 (conv_init 1 6 1) (m 200))) = 0.
+Proof. vm_compute; auto. Qed.
